@@ -27,6 +27,7 @@
 #include "exceptions.h"  // for Unrecognized
 #include "geometry.h"    // for Geometry
 #include "identify.h"	 // for DFS::identify_image
+#include "verif_trace.h"
 
 namespace
 {
@@ -132,6 +133,7 @@ namespace DFS
     const unsigned long pos = lba * DFS::SECTOR_BYTES;
     std::vector<byte> got = f_.read(pos, DFS::SECTOR_BYTES);
     assert(got.size() <= DFS::SECTOR_BYTES);
+    VERIF_EVENT("{\"e\":\"blk\",\"lba\":%lu,\"got\":%lu,\"sum\":%lu}", lba, (unsigned long)got.size(), verif::sum(got.begin(), got.end()));
     if (got.size() < DFS::SECTOR_BYTES)
       return std::nullopt;
     SectorBuffer buf;
